@@ -157,11 +157,11 @@ Section Leak.
   (* the first response of the same-secret proof is omega + c x with 1 <= omega < 2^(l+t) b: dividing by the (public) challenge
      returns x up to omega / c -- with the 256-bit challenge the code uses and a secret x_1 of ~ T/2 + |width|/2 bits this is x_1 itself
      (up to 2^(l+t) b / c), whatever the draws *)
-  Theorem same_secret_response_pins_x x r1 r2 g1 h1 g2 h2 b n ds p ds' :
+  Theorem same_secret_response_pins_x x r1 r2 g1 h1 g2 h2 b n s2x ds p ds' :
     Forall int_ok ds ->
-    proof_same_secret BP x r1 r2 g1 h1 g2 h2 b n ds = Ok (p, ds') ->
+    proof_same_secret BP x r1 r2 g1 h1 g2 h2 b n s2x ds = Ok (p, ds') ->
     0 < ss_chal p ->
-    x <= ss_d p / ss_chal p <= x + (two (b_l BP + b_t BP) * b - 1) / ss_chal p.
+    x <= ss_d p / ss_chal p <= x + (two (b_l BP + ss_t BP) * b - 1) / ss_chal p.
   Proof.
     intros Hd H Hc. unfold proof_same_secret in H.
     mstep H omega d1 Ho. mstep H mu1 d2 Hm1. mstep H mu2 d3 Hm2. mstep H w1 d4 Hw1. mstep H w2 d5 Hw2.
@@ -171,6 +171,6 @@ Section Leak.
     replace (omega + c * x) with (omega + x * c) by ring. rewrite Z.div_add by lia.
     split.
     - assert (0 <= omega / c) by (apply Z.div_pos; lia). lia.
-    - assert (omega / c <= (two (b_l BP + b_t BP) * b - 1) / c) by (apply Z.div_le_mono; lia). lia.
+    - assert (omega / c <= (two (b_l BP + ss_t BP) * b - 1) / c) by (apply Z.div_le_mono; lia). lia.
   Qed.
 End Leak.
